@@ -1,2 +1,2 @@
-/* fid: long-double-conversion (fixed e424260); msg: long double is not yet supported */
+/* fid: long-double-conversion (fixed a8d3b67); msg: long double is not yet supported */
 double f(double x){ return (long double)x; }
